@@ -393,7 +393,7 @@ class TTCFG(
         ) -> Tuple[bool, Tuple[int, int]]:
             predecessors = state[1][0]
             last_pred = predecessors.last() if len(predecessors) > 0 else None
-            if derivation in forbidden_sets.get(
+            if isinstance(derivation, Primitive) and derivation.primitive in forbidden_sets.get(
                 (last_pred[0].primitive, last_pred[1])
                 if last_pred and isinstance(last_pred[0], Primitive)
                 else ("", 0),
@@ -435,7 +435,7 @@ class TTCFG(
         ) -> Tuple[bool, int]:
             predecessors = state[1][0]
             last_pred = predecessors.last() if len(predecessors) > 0 else None
-            if derivation in forbidden_sets.get(
+            if isinstance(derivation, Primitive) and derivation.primitive in forbidden_sets.get(
                 (last_pred[0].primitive, last_pred[1])
                 if last_pred and isinstance(last_pred[0], Primitive)
                 else ("", 0),
